@@ -21,7 +21,7 @@ PLAN['C18'] = dict(
     require_tags={t: ['nrows=%d.' % _C18_NROWS] + ['row=%03d' % i for i in range(_C18_NROWS)]
                      + ['rt=' + s for s in ('gssv', 'gssvx', 'gsisx', 'gstrs', 'gsrfs', 'gscon', 'gsequ', 'trsv')]
                      + ['prec=s', 'prec=d', 'prec=c', 'prec=z', 'outcome=rejected', 'base=NR/FACTORED', 'base=NC/FACTORED', 'base=NR/DOFACT',
-                        'base=NR/SamePattern_SameRowPerm', 'base=NC/SamePattern/']
+                        'base=NR/SamePattern_SameRowPerm', 'base=NC/SamePattern/', 'base=size-query']
                   for t in ('quick', 'thorough')},
     assumptions=['expected codes are the argument positions in the routine headers (info = -i: the i-th argument had an illegal value); ?gssv documents the argument '
                  'types but not the negative codes, the position convention of the property statement is applied to it',
